@@ -13,10 +13,52 @@ type Harness struct {
 }
 
 type Check struct {
-	Property string
-	Harnesses []Harness
+	Property    string
+	Harnesses   []Harness
+	Assumptions []string
+	Bounds      []string
 }
 
-var checks = []Check{}
+type P = map[string]int
 
-func cmdCheck(prop, tier string) int { return 2 }
+// tag bits (mirror of vf)
+const (
+	TNull = 1 << iota
+	TInt32
+	TInt64
+	TDouble
+	TString
+	TBool
+	TDate
+	TTimestamp
+	TObjectID
+	TBinary
+	TRegex
+	TArray
+	TDoc
+	TMissing
+	TNumbers = TInt32 | TInt64 | TDouble
+	TScalars = TNull | TInt32 | TInt64 | TDouble | TString | TBool | TDate | TTimestamp | TObjectID | TBinary | TRegex
+	TAll     = TScalars | TArray | TDoc
+)
+
+var commonAssumptions = []string{
+	"go/packages + go/ssa preserve the source semantics; gosym implements each SSA instruction, Go's integer wrap-around and amd64 float->int conversion correctly (validated per run by replaying solver models natively and comparing observations)",
+	"cvc5 1.0.3 answers are correct; unknown/timeout/(error is reported as inconclusive, never as success",
+	"strings are concrete on every path (finite pools stated in bounds); Decimal128, regexp/$jsonSchema and the reflection-driven mongo-driver codec are outside every bound (DESIGN.md section 6)",
+}
+
+var checks = []Check{
+	{
+		Property: "C12",
+		Harnesses: []Harness{
+			{Dir: "bsonkit", Func: "H_C12_antisym", Quick: P{"tags": TScalars, "depth": 0}, Thorough: P{"tags": TAll, "depth": 2}},
+			{Dir: "bsonkit", Func: "H_C12_class", Quick: P{"tags": TAll, "depth": 1}, Thorough: P{"tags": TAll, "depth": 1}},
+			{Dir: "bsonkit", Func: "H_C12_exact", Quick: P{}, Thorough: P{}},
+			{Dir: "bsonkit", Func: "H_C12_trans", Quick: P{"tags": TNull | TNumbers | TString | TBool, "depth": 0}, Thorough: P{"tags": TScalars | TArray, "depth": 1}},
+		},
+		Assumptions: commonAssumptions,
+		Bounds: []string{"scalars: every value of every supported non-decimal type (int32/int64/double full range incl. NaN, +-Inf, +-0; strings from pool {\"\",a,b}; binary length <= 2; ObjectID bytes 0 and 11 symbolic); containers: length <= 2, keys from {a,b}, nesting depth as stated per harness",
+			"outside: Decimal128 (math/big code, not encodable): the known non-finite-decimal ordering defect is invisible to this check"},
+	},
+}
